@@ -464,6 +464,26 @@ def real_datetime_family():
                         continue
                     check('dt/is_soon', soon == (-gap <= s_model),
                           detail=(label, str(now), str(a), s))
+            # whole-second margins are exact whatever the distance: t is
+            # placed k seconds and one microsecond away from now, k up to
+            # thousands of years (beyond 2**53 microseconds)
+            for k in (0, 1, 86400 * 365 * 300, 220898707200,
+                      r.randint(2 ** 53 // 10 ** 6, 2 * 10 ** 11)):
+                for sign in (1, -1):
+                    try:
+                        t = now + sign * datetime.timedelta(seconds=k,
+                                                            microseconds=1)
+                    except OverflowError:
+                        continue
+                    for s, beyond in ((k, True), (k + 1, False)):
+                        older = sign < 0 and beyond
+                        newer = sign > 0 and beyond
+                        check('dt/is_older_than-far-whole-seconds',
+                              T.is_older_than(t, s) == older,
+                              detail=(str(now), str(t), s))
+                        check('dt/is_newer_than-far-whole-seconds',
+                              T.is_newer_than(t, s) == newer,
+                              detail=(str(now), str(t), s))
             d_us = r.choice([0, 1, -1, 999999, 86400 * 10 ** 6,
                              r.randint(-10 ** 12, 10 ** 12)])
             try:
